@@ -305,6 +305,10 @@ func main() {
 		}
 	}
 
+	// 5. the keeper's account loader behind statedb.Keeper.GetAccount: how the Nonce of the statedb.Account
+	//    it builds is filled in
+	loader := loaderShape(methodOf(keeper, "Keeper", "GetAccount"), kf)
+
 	fmt.Println("Require Import Nib.C07.Model Nib.C07.Facts.")
 	fmt.Println("From Coq Require Import String List. Import ListNotations. Open Scope string_scope.")
 	fmt.Println("Definition evm_ante_chain : list dec := [")
@@ -318,8 +322,92 @@ func main() {
 	fmt.Println("].")
 	fmt.Printf("Definition sig_signer_constructor : string := %s.\n", CoqString(sigCtor))
 	fmt.Println("Definition current_facts : facts := {|")
+	fmt.Printf("  f_loader := %s;\n", loader)
 	fmt.Printf("  f_inc_check := %s;\n  f_inc_reads_account_sequence := %s;\n  f_inc_sets_plus_one := %s;\n", incCheck, CoqBool(incReads), CoqBool(incPlusOne))
 	fmt.Printf("  f_sig_signer_of_this_chain := %s;\n  f_cantransfer_signer_of_this_chain := %s;\n  f_sig_rejects_on_error := %s;\n  f_sig_sets_from := %s;\n", CoqBool(sigChain), CoqBool(ctChain), CoqBool(sigRejects), CoqBool(sigSetsFrom))
 	fmt.Printf("  f_msg_london_signer_of_this_chain := %s;\n  f_bracket_before := %s;\n  f_bracket_after := %s;\n  f_event_create_address_from_nonce := %s |}.\n",
 		CoqBool(msgSigner), CoqBool(before), CoqBool(after), CoqBool(createAddr))
+}
+
+// loaderShape looks at every place where Keeper.GetAccount (and the helpers it calls, 3 levels) gives the Nonce
+// of a statedb.Account a value — a `Nonce:` key of a composite literal or an assignment to `<x>.Nonce` — and
+// classifies the value after inlining single-assignment locals:
+//
+//	LoadSeqAlways   every such value is GetSequence() of the auth account looked up with GetAccount (not of the
+//	                result of a type assertion), at least one exists, no literal of the type leaves the field out
+//	                unless an assignment at the top level of the same function (runs on every path) fills it in
+//	LoadSeqEthOnly  a value is GetSequence() of what a type assertion yields (and nothing is unknown)
+//	LoadUnknown     anything else
+func loaderShape(root *ast.FuncDecl, pkg map[string]*ast.FuncDecl) string {
+	if root == nil {
+		return "LoadUnknown"
+	}
+	good, narrowed, unknown := 0, 0, 0
+	classify := func(sc *scope, v ast.Expr) {
+		c := sc.canon(v)
+		switch {
+		case !strings.HasSuffix(c, ".GetSequence()"):
+			unknown++
+		case strings.Contains(c, ".("):
+			narrowed++
+		case strings.Contains(c, ".GetAccount("):
+			good++
+		default:
+			unknown++
+		}
+	}
+	for _, fd := range reach(root, pkg, 3) {
+		sc := newScope(fd)
+		top := map[ast.Stmt]bool{}
+		for _, st := range fd.Body.List {
+			top[st] = true
+		}
+		lits, litsWithNonce, topAssign, condAssign := 0, 0, 0, 0
+		ast.Inspect(fd.Body, func(n ast.Node) bool {
+			switch x := n.(type) {
+			case *ast.CompositeLit:
+				if !strings.HasSuffix(Nospace(x.Type), "statedb.Account") {
+					return true
+				}
+				lits++
+				for _, e := range x.Elts {
+					if kv, ok := e.(*ast.KeyValueExpr); ok {
+						if id, ok := kv.Key.(*ast.Ident); ok && id.Name == "Nonce" {
+							litsWithNonce++
+							classify(sc, kv.Value)
+						}
+					}
+				}
+			case *ast.AssignStmt:
+				for i, l := range x.Lhs {
+					sel, ok := l.(*ast.SelectorExpr)
+					if !ok || sel.Sel.Name != "Nonce" || len(x.Rhs) != len(x.Lhs) {
+						continue
+					}
+					if top[x] {
+						topAssign++
+					} else {
+						condAssign++
+					}
+					classify(sc, x.Rhs[i])
+				}
+			}
+			return true
+		})
+		switch {
+		case condAssign > 0 && narrowed == 0: // filled in under a condition that is not the type assertion
+			unknown++
+		case lits > litsWithNonce && topAssign == 0 && condAssign == 0: // never filled in
+			unknown++
+		}
+	}
+	switch {
+	case unknown > 0:
+		return "LoadUnknown"
+	case narrowed > 0:
+		return "LoadSeqEthOnly"
+	case good > 0:
+		return "LoadSeqAlways"
+	}
+	return "LoadUnknown"
 }
